@@ -20,6 +20,7 @@ import (
 	"path/filepath"
 	"sort"
 	"strings"
+	"time"
 
 	"github.com/RoaringBitmap/roaring/v2"
 	"github.com/sourcegraph/zoekt"
@@ -656,7 +657,7 @@ func main() {
 	}
 
 	// ---- search / list: real shards
-	nCorpora := f.N(18, 600)
+	nCorpora := f.N(10, 400)
 	for i := 0; i < nCorpora; i++ {
 		names := append([]string(nil), q1q.RepoNames...)
 		gen.Shuffle(r, names)
@@ -690,10 +691,13 @@ func main() {
 			}
 			ctx = append(ctx, extra)
 		}
-		viaDir := i%3 == 0
+		viaDir := i%5 == 0
+		t0 := time.Now()
 		rc := rn.build(ctx, viaDir)
+		w.Count(fmt.Sprintf("ms:build(dir=%v)", viaDir), int(time.Since(t0).Milliseconds()))
+		t0 = time.Now()
 		qg := &q1q.QGen{R: r, IDs: ids, TypeKinds: []uint8{1}, NoCaseScope: true, SafeSymbol: true, NoEmptyBranch: true}
-		for k := 0; k < 16; k++ {
+		for k := 0; k < 40; k++ {
 			q := topQuery(r, qg, true)
 			if k%4 == 3 {
 				// the common Sourcegraph shape: BranchesRepos[HEAD: ids] ∧ content
@@ -710,6 +714,9 @@ func main() {
 			}
 			rn.searchList(rc, ctx, q, viaDir, "")
 		}
+		w.Count("ms:queries", int(time.Since(t0).Milliseconds()))
+		t0 = time.Now()
 		rc.close()
+		w.Count("ms:close", int(time.Since(t0).Milliseconds()))
 	}
 }
